@@ -143,6 +143,15 @@ theorem rustOf_not_inj_without_plainBase :
     rustOf (.vec (.path "i64")) (.nonNull (.named "T")) = rustOf (.path "i64") (.nonNull (.list (.nonNull (.named "U")))) := by
   simp [rustOf, rustOfNN]
 
+/-- **on the generator's own function**: `decorate_type` maps two well-formed qualifier lists to the same
+    Rust type only if they are the same modifier shape (a corollary of `decorate_spec`) -/
+theorem decorateType_shape_inj (b : RTy) (hb : plainBase b = true) (t1 t2 : GTy)
+    (h1 : wf t1 = true) (h2 : wf t2 = true)
+    (he : Codegen.decorateType b (GTy.quals t1) = Codegen.decorateType b (GTy.quals t2)) :
+    shape t1 = shape t2 := by
+  rw [decorate_spec b t1 h1, decorate_spec b t2 h2] at he
+  exact rustOf_shape_inj b hb t1 t2 h1 h2 (by injection he)
+
 -- non-vacuity: `[[Int!]]!` vs `[[Int]!]!`
 example : rustOf (.path "i64") (.nonNull (.list (.list (.nonNull (.named "Int"))))) ≠
     rustOf (.path "i64") (.nonNull (.list (.nonNull (.list (.named "Int"))))) :=
